@@ -150,6 +150,12 @@ def run(res):
         else:
             continue
         t = rng.choice(EPOCHS) * 1000
+        if i % 8 == 5:
+            # sample indices at and above 2**63 (40 MHz in the year 9575): unsigned 64-bit all the way down to the file
+            n, dd, sc, fc = 4 * 10 ** 7, 1, 1, 1
+            per_file = fc * n // (1000 * dd)
+            t = (240000000000 + rng.randrange(0, 10 ** 9)) * 1000
+            res.count("recordings_with_indices_above_2^63")
         tb = rng.choice([(t // fc) * fc, (t // (sc * 1000)) * sc * 1000, t])
         start = cdiv(tb * n, 1000 * dd) + rng.choice([-2, -1, 0, 1, 2, -per_file, per_file // 2])
         if start < 0:
